@@ -133,13 +133,14 @@ inline void sanitizer_death() { if (vsim::active()) emit_result("memory-error", 
 inline int harness_main(int argc, char** argv, Harness& h) {
   vsim::set_fatal_callback(fatal_cb);
   if (&__sanitizer_set_death_callback) __sanitizer_set_death_callback(sanitizer_death);
-  uint64_t first = 1, count = 1, stride = 1; int tier = 0; const char* variant = ""; const char* replay = nullptr; long warm = 0;
+  uint64_t first = 1, count = 1, stride = 1; int tier = 0; const char* variant = ""; const char* replay = nullptr; long warm = 0; bool plan_only = false;
   for (int i = 1; i < argc; ++i) {
     if (!strcmp(argv[i], "--seeds") && i + 3 < argc) { first = strtoull(argv[i + 1], 0, 10); count = strtoull(argv[i + 2], 0, 10); stride = strtoull(argv[i + 3], 0, 10); i += 3; }
     else if (!strcmp(argv[i], "--tier") && i + 1 < argc) tier = atoi(argv[++i]);
     else if (!strcmp(argv[i], "--variant") && i + 1 < argc) variant = argv[++i];
     else if (!strcmp(argv[i], "--replay") && i + 1 < argc) replay = argv[++i];
     else if (!strcmp(argv[i], "--warm") && i + 1 < argc) warm = atol(argv[++i]);
+    else if (!strcmp(argv[i], "--plan-only")) plan_only = true;
   }
   auto& c = ctx(); c.h = &h; c.variant = variant;
   if (warm > 0) h.warm(warm);
@@ -157,6 +158,10 @@ inline int harness_main(int argc, char** argv, Harness& h) {
     c.seed = first + k * stride; c.cfg = vsim::Config{}; c.cfg.seed = c.seed;
     c.plan = h.generate(c.seed, tier, c.cfg);
     c.cfg.faults.clear(); for (auto& f : c.plan.faults) if (f.size() >= 3) c.cfg.faults.push_back({int(f[0]), f[1], f[2]});
+    if (plan_only) {   // print the plan of this seed without running it (used to make a run that never returned replayable)
+      printf("{\"seed\":%llu,\"cls\":\"plan\",\"variant\":\"%s\",\"plan\":%s,\"cfg\":%s,\"text\":\"%s\"}\n", (unsigned long long)c.seed, variant, plan_json(c.plan).c_str(), cfg_json(c.cfg).c_str(), jesc(h.describe(c.plan)).c_str());
+      continue;
+    }
     Outcome o = h.run(c.plan, c.cfg);
     emit_result(o.cls, o.detail, &o);
   }
